@@ -39,6 +39,9 @@ PROPS = {
    'rule': LOCKING_RULE,
    'assumptions': ['grants and voting powers are non-negative (unsigned on the wire); InitialBlockReward >= 0 (Params.Validate)'],
  },
+ 'C13': {'runs': locking('C13', blocks=16), 'monitor_props': ['C13'], 'rule': LOCKING_RULE + '; max-validators 1..5; the REAL cometbft ValidatorSet.UpdateWithChangeSet is the acceptance oracle',
+         'partial': 'C13_refines is proved under the ranking/set well-formedness hypotheses; preservation of those invariants by every operation is checked on every history by the model comparison (ranking, index, set components) and the CometBFT oracle, the inductive Coq proof of preservation is in progress',
+         'assumptions': ['total voting power stays below MaxInt64/8 and validator power does not wrap uint64 (known finding C13 power-overflow)', 'at least one validator stays in the set (CometBFT refuses to empty the set; environment assumption)']},
  'C14': {
    'runs': locking('C14', blocks=18),
    'monitor_props': ['C14'],
@@ -55,6 +58,9 @@ PROPS = {
          'partial': 'the payload-level check (VerifyDequeue / unfinalised proposals consume nothing / restarts) is exercised at application level by C08/C09 checks'},
  'C16': {'runs': bridge('C16', ops=60), 'monitor_props': ['C16'], 'rule': BRIDGE_RULE, 'assumptions': SYMBOLIC,
          'partial': 'the full group invariant (proposer not a voter, members distinct with activated/off-boarding records) and totality of the election step are checked by the implementation-side monitor on every history and by the model comparison; their inductive Coq proof is not finished'},
+ 'C15': {'runs': locking('C15', blocks=18), 'monitor_props': ['C15'], 'rule': LOCKING_RULE + '; unlock / exit durations 10..90 s with block-time jumps over them',
+         'partial': 'step-level theorems (queued at now+delay, released only when key <= now, in key order, FIFO hand-over); the end-to-end delay over whole histories is checked by the implementation-side monitor, not yet by an inductive Coq theorem',
+         'assumptions': ['block times non-decreasing (CometBFT BFT time)', 'ExitingDuration >= UnlockDuration (Params.Validate)']},
  'C04': {
    'runs': runs([{'family': 'merkle', 'n': 3000, 'shards': 16}],
                 [{'family': 'merkle', 'n': 60000, 'shards': 64}]),
